@@ -8,7 +8,7 @@ IDS = ["C%02d" % i for i in range(1, 21)]
 
 # id -> (level text, level note / trusted base, technique, design section)
 CHECKS = {
- "C01": ("bounded-exhaustive exploration of the real non-shear contribution classes on a duck-typed calculator: BFS over the deviation lattice of 10 input alphabets (<=2 deviations quick; <=4 on small shapes and <=3 on all shapes thorough), every configuration compared with 40-digit numerical derivatives of the free energy itself",
+ "C01": ("bounded-exhaustive exploration of the real non-shear contribution classes on a duck-typed calculator: BFS over the deviation lattice of 10 input alphabets (<=2 deviations quick; thorough: the FULL product on the five small shapes and <=3 deviations on all shapes), every configuration compared with 40-digit numerical derivatives of the free energy itself",
          "alphabets of analytic spectra (exact gamma, V dgamma/dV); CODATA constants from scipy; mpmath differentiation; values outside the alphabets are covered only through the formulas' structure",
          "deviation-bounded exhaustive enumeration of input alphabets on the implementation, oracle = mpmath derivatives of F_ph", "6 C01"),
  "C02": ("same lattice as C01 plus heat-capacity fields for all 9 ordered non-shear index pairs; all 15 shear keys through the real task list (full set, singletons, pairs) for adiabatic==isothermal bit-identity",
